@@ -240,6 +240,11 @@ impl ToStr_ for u8 { #[verifier::external_body] fn to_str_(&self) -> (r: Str) { 
 impl ToStr_ for usize { #[verifier::external_body] fn to_str_(&self) -> (r: Str) { unimplemented!() } }
 impl ToStr_ for OverflowError { #[verifier::external_body] fn to_str_(&self) -> (r: Str) { unimplemented!() } }
 impl ToStr_ for CheckedMultiplyRatioError { #[verifier::external_body] fn to_str_(&self) -> (r: Str) { unimplemented!() } }
+impl ToStr_ for DivideByZeroError { #[verifier::external_body] fn to_str_(&self) -> (r: Str) { unimplemented!() } }
+impl ToStr_ for CheckedMultiplyFractionError { #[verifier::external_body] fn to_str_(&self) -> (r: Str) { unimplemented!() } }
+impl ToStr_ for CheckedFromRatioError { #[verifier::external_body] fn to_str_(&self) -> (r: Str) { unimplemented!() } }
+impl ToStr_ for ConversionOverflowError { #[verifier::external_body] fn to_str_(&self) -> (r: Str) { unimplemented!() } }
+impl ToStr_ for DivisionError { #[verifier::external_body] fn to_str_(&self) -> (r: Str) { unimplemented!() } }
 impl ToStr_ for bool { #[verifier::external_body] fn to_str_(&self) -> (r: Str) { unimplemented!() } }
 impl ToStr_ for Uint64 { #[verifier::external_body] fn to_str_(&self) -> (r: Str) { unimplemented!() } }
 impl ToStr_ for Uint128 { #[verifier::external_body] fn to_str_(&self) -> (r: Str) { unimplemented!() } }
